@@ -125,8 +125,9 @@ def check(ctx):
             if isinstance(y, Call) and y.fn in ('open', 'io.open') and y.args:
                 opened |= alt_ids(y.args[0])
         lj = [j for a in flat(loc) for j in location_joins(a) if same(j[2], a)]
+        exact = all(is_call(strip(x), *UNQUOTERS) for V, P, j in lj for x in flat(P))
         ctx.ob('R02.2', 'LOC = join(volume, unquote(Path of the same .trashinfo))',
-               bool(lj) and len(lj) == len(flat(loc)) and opened == infos, node=m,
+               bool(lj) and len(lj) == len(flat(loc)) and opened == infos and exact, node=m,
                message='the destination %s is not the location recorded in the .trashinfo '
                        'whose payload is moved' % short(loc, 120))
         dels = [d for d in muts if d.data['kind'] == 'DELETE']
@@ -151,8 +152,20 @@ def check(ctx):
                bool(stop) and cut_c(b, g.entry, m.id, stop), node=m,
                message='missing parent directories of the original location are not '
                        'recreated before the move')
-    # ---- R02.3
+    # the MOVE primitives of both directions keep content and metadata
     pr = PutRoles(ctx)
+    for e in moves + pr.moves:
+        kw = e.data['kwargs']
+        cf = strip(kw['copy_function']) if 'copy_function' in kw else None
+        extra = e.data['args'][2:] if e.data['prim'] == 'shutil.move' else []
+        if extra:
+            cf = strip(extra[0])
+        ok = cf is None or (isinstance(cf, ExtRef) and cf.qualname == 'shutil.copy2')
+        ctx.ob('R02.2', 'the MOVE primitive preserves metadata when it has to copy', ok,
+               node=e, message='%s is given copy_function=%s: when the move crosses a '
+                               'volume, permissions and modification times of the entry '
+                               'are not carried over' % (e.data['prim'], short(cf)))
+    # ---- R02.3
     gp = core_generators(trash_dir_generators(pr.b), pr.b)
     gr = core_generators(trash_dir_generators(b), b)
     ctx.ob('R02.3', 'put and restore enumerate trash directories through the same functions',
